@@ -434,6 +434,8 @@ func valueCat(n *Node) string {
 				return "expfloat"
 			case f == float64(int64(f)):
 				return "wholefloat"
+			case len(strings.Trim(strings.TrimLeft(n.Lit, "-0."), "0")) > 8: // digits besides the point
+				return "longfrac" // more significant digits than a float32 holds
 			}
 			return "frac"
 		}
